@@ -22,6 +22,13 @@ sensitivity:  s/0x0004 | 0x000A => DataRef::Bool/0x0004 => DataRef::Bool/@src/xl
 sensitivity:  s/0x0092 => return Ok(None), \\/\\/ BrtEndSheetData/0x0024 => return Ok(None),/@src/xlsb/cells_reader.rs   (a filler ends the sheet)
 sensitivity:  s/_ => continue, \\/\\/ anything else, ignore and try next, without changing idx/_ => { self.row += 1; continue }/@src/xlsb/cells_reader.rs
 sensitivity:  s/let v = if d100 { v \\/ 100.0 } else { v };/let v = if d100 { v \\/ 10.0 } else { v };/@src/xlsb/cells_reader.rs
+
+fixture leg (leg 2 on real-world files): every worksheet part of /repo/tests/*.xlsb is split into records by an
+independent BIFF12 framing reader (harness/src/fixtures.rs); Trace_XlsbSheet.TFixture checks next_skip_blocks over the
+real preamble ids and re-runs next_cell with the coarse-kind typing (CellStepK).
+sensitivity (fixture leg ALONE, VERIF_ONLY=fixtures bin/mutant C03 ...@src/xlsb/cells_reader.rs): 3 of 3 KILLED
+sensitivity:  s/0x0004 | 0x000A => DataRef::Bool/0x0004 => DataRef::Bool/   s/0x0006 | 0x0008 => DataRef::String/0x0006 => DataRef::String/
+sensitivity:  s/self.row = read_u32(\&self.buf);/self.row = read_u32(\&self.buf) + 1;/
 """
 LEVEL = "model_checking"
 
@@ -30,6 +37,15 @@ THOROUGH = ["t_kinds", "t_pos", "t_span", "t_ign", "t_pre", "t_big"]
 
 
 def run(ctx):
+    import os
+    if os.environ.get("VERIF_ONLY") == "fixtures":      # sensitivity experiments: the fixture leg alone
+        ctx.fixture_leg("xlsb", "xlsb", "Trace_XlsbSheet", "Trace_XlsbSheet.cfg")
+        return
+    run_model_legs(ctx)
+    ctx.fixture_leg("xlsb", "xlsb", "Trace_XlsbSheet", "Trace_XlsbSheet.cfg")
+
+
+def run_model_legs(ctx):
     ctx.rules.append(
         "TLC (MC_XlsbSheet) enumerates every cell table (BrtRowHdr with ascending rows, cell records of every "
         "listed kind with ascending columns, filler records at every gap) within the profile bounds; every "
